@@ -270,6 +270,7 @@ def run(chk):
         chk.coverage["traces_validated_against_impl"] = len(res)
         chk.count("disagreements", ndis)
     password_part(chk)
+    parallel_part(chk)
     profile_part(chk)
     chk.coverage["rule"] = ("configurations with 1-3 experiments on 1-3 data files (default / per experiment, shared or separate suites), "
                             "1-3 benchmarks, 1-4 criteria, 1-5 iterations, warm-up 0-3, histories of 1-3 sessions selecting one or all "
@@ -310,6 +311,54 @@ def dps_from_lines(app_lines, all_lines, old_lines):
 
 PERF_REPORT = ("# Samples: 1K of event 'cycles'\n#\n    61.50%  harness  harness.so  [.] main_loop\n"
                "    38.50%  harness  harness.so  [.] helper_fn\n")
+
+
+def parallel_part(chk):
+    """one session under the parallel scheduler (non-exclusive runs, one data file) with a slow first opening of the file:
+    still one metadata block, one column header, every data point once and whole"""
+    import time
+    import machine_h as mh
+    import rebench.persistence as pers
+    import rebench.executor as rexec
+    rng = chk.rng
+    o_open = pers._FilePersistence._open_file_and_append_execution_comment
+    o_cpu = rexec.cpu_count
+
+    def slow_open(self):
+        time.sleep(0.03)        # the window in which another worker thread may look at self._file
+        return o_open(self)
+    pers._FilePersistence._open_file_and_append_execution_comment = slow_open
+    rexec.cpu_count = lambda: 20
+    n = 6 if chk.tier == "quick" else 60
+    try:
+        for i in range(n):
+            d = session.scratch_dir()
+            try:
+                specs = [mh.Spec("B%d" % k, N=rng.randint(1, 2), exclusive=False) for k in range(rng.randint(4, 8))]
+                f = os.path.join(d, "par.data")
+                obs = mh.run_impl(specs, f, "batch")
+                case = dict(scheduler="parallel", runs=len(specs), invocations=[s.N for s in specs])
+                if isinstance(obs.result, str):
+                    chk.violation("C06 a session under the parallel scheduler ends without an exception", case, "no exception", "%s %r" % (obs.result, obs.ses.exc))
+                    continue
+                data = dh.read_bytes(f).decode("utf-8")
+                lines = data.split("\n")
+                blocks = sum(1 for l in lines if l.startswith("# Execution Start:"))
+                headers = sum(1 for l in lines if l.startswith("invocation\t"))
+                rows = [l for l in lines if l and not l.startswith("#") and not l.startswith("invocation\t")]
+                want = sum(s.N for s in specs)
+                if blocks != 1 or headers != 1:
+                    chk.violation("C06 one session appends one metadata block and (to an empty file) one column header, also under the parallel scheduler",
+                                  case, "1 block, 1 header", "%d blocks, %d headers" % (blocks, headers))
+                elif len(rows) != want:
+                    chk.violation("C06 every data point is recorded exactly once (parallel scheduler)", case, want, len(rows))
+                chk.case(("parallel", i))
+            finally:
+                shutil.rmtree(d, ignore_errors=True)
+    finally:
+        pers._FilePersistence._open_file_and_append_execution_comment = o_open
+        rexec.cpu_count = o_cpu
+    chk.count("parallel_sessions_with_slow_first_open", n)
 
 
 def profile_part(chk):
